@@ -60,6 +60,10 @@ def gen_offsets(headers, outdir, extra=()):
     for h in headers:
         with open(h) as f:
             text = f.read()
+        gm = re.search(r'#ifndef\s+(\w+)', text)
+        guard = gm.group(1) if gm else None
+        if guard:
+            cpp.append('#ifdef %s' % guard)   # only for the stub headers this translation unit includes
         for name, inst, fields in parse_stub_structs(text):
             # inst: "alias=cpptype:T=ctype; alias2=..."  for templates, or empty
             insts = []
@@ -94,6 +98,8 @@ def gen_offsets(headers, outdir, extra=()):
                         c.append('#define %s_%s(p) (*(%s*)((char*)(p) + OFF_%s_%s))' % (al, fld, ct, al, fld))
                 cpp.append('extern const unsigned long SIZEOF_%s = sizeof(%s);' % (al, cppty))
                 c.append('extern const unsigned long SIZEOF_%s;' % al)
+        if guard:
+            cpp.append('#endif')
     cpp.append('}')
     c.append('#endif')
     os.makedirs(outdir, exist_ok=True)
@@ -151,9 +157,22 @@ def gen_options(repo, outdir):
             cpp.append('extern verif_string optv_%s;' % o['name'])
             ns.append('inline const verif_string &%s() { return optv_%s; }' % (o['name'], o['name']))
             continue
-        cpp.append('%s optv_%s;' % (cppT, o['name']))
+        if t in ('iarf_e', 'line_end_e', 'token_pos_e'):
+            # stored as int so that the C contract files can name the variable (C and C++ enum types differ)
+            cpp.append('int optv_%s;' % o['name'])
+            ns.append('inline %s %s() { return (%s)optv_%s; }' % (cppT, o['name'], cppT, o['name']))
+        else:
+            cpp.append('%s optv_%s;' % (cppT, o['name']))
+            ns.append('inline %s %s() { return optv_%s; }' % (cppT, o['name'], o['name']))
         c.append('extern %s optv_%s;' % (cT, o['name']))
-        ns.append('inline %s %s() { return optv_%s; }' % (cppT, o['name'], o['name']))
+        if o['bounded']:
+            c.append('#define OPT_RANGE_%s ((long)optv_%s >= (long)(%s) && (long)optv_%s <= (long)(%s))' % (o['name'], o['name'], o['min'], o['name'], o['max']))
+        elif t in ('iarf_e', 'line_end_e'):
+            c.append('#define OPT_RANGE_%s ((int)optv_%s >= 0 && (int)optv_%s <= 3)' % (o['name'], o['name'], o['name']))
+        elif t == 'token_pos_e':
+            c.append('#define OPT_RANGE_%s (((int)optv_%s & ~0x3f) == 0)' % (o['name'], o['name']))
+        else:
+            c.append('#define OPT_RANGE_%s 1' % o['name'])
         if o['bounded']:
             assume.append('__CPROVER_assume((long)optv_%s >= (long)(%s) && (long)optv_%s <= (long)(%s));' % (o['name'], o['min'], o['name'], o['max']))
         elif t == 'iarf_e':
@@ -171,11 +190,11 @@ def gen_options(repo, outdir):
             continue
         cppT = cty[o['type']][0]
         if o['type'] in ('iarf_e', 'line_end_e', 'token_pos_e'):
-            cpp.append('  optv_%s = (%s)nondet_int();' % (o['name'], cppT))
+            cpp.append('  optv_%s = nondet_int();' % o['name'])
         elif o['type'] == 'bool':
             cpp.append('  optv_%s = nondet_bool();' % o['name'])
         else:
-            cpp.append('  optv_%s = (%s)nondet_int();' % (o['name'], cppT))
+            cpp.append('  optv_%s = (%s)nondet_%s();' % (o['name'], cppT, 'uint' if o['type'] == 'unsigned' else 'int'))
     cpp += ['  ' + a for a in assume]
     cpp.append('}')
     cpp.append('#endif')
